@@ -55,7 +55,7 @@ def run(ctx):
     known = lib.load_known("C06")
     known_classes = set(x["class"] for x in known)
     # ---- library entry: whole pipeline, both profiles, against the model -------------------------------
-    stores = generic.stores_for(ctx, dict(flow=150, random=60, mutated=120, conforming=20, injected=20, hanging=True))
+    stores = generic.stores_for(ctx, dict(flow=150, random=60, mutated=120, conforming=20, injected=20, hanging=True, ecallloop=20))
     for _ in range(150 * k):
         stores.append((pipe.single(gen.token_soup(rng, rng.randrange(0, 120))), "a.s", "soup"))
     for _ in range(80 * k):
